@@ -367,3 +367,56 @@ def yields_of(func: ast.AST) -> List[ast.AST]:
 
 def raises_of(func: ast.AST) -> List[ast.Raise]:
     return [n for n in walk_local(func) if isinstance(n, ast.Raise)]
+
+
+def truth(test: ast.AST, facts) -> Optional[bool]:
+    """Three-valued evaluation of a test under `facts` (normalised atom text -> bool).
+    Understands not / and / or, and the complement pairs == / !=, in / not in, is / is not.
+    None = not decided by the facts."""
+    from .program import norm as _norm
+
+    if isinstance(test, ast.UnaryOp) and isinstance(test.op, ast.Not):
+        v = truth(test.operand, facts)
+        return None if v is None else (not v)
+    if isinstance(test, ast.BoolOp):
+        vals = [truth(v, facts) for v in test.values]
+        if isinstance(test.op, ast.And):
+            if any(v is False for v in vals):
+                return False
+            return True if all(v is True for v in vals) else None
+        if any(v is True for v in vals):
+            return True
+        return False if all(v is False for v in vals) else None
+    t = _norm(test)
+    if t in facts:
+        return facts[t]
+    if isinstance(test, ast.Compare) and len(test.ops) == 1:
+        comp = {ast.Eq: "!=", ast.NotEq: "==", ast.In: "not in", ast.NotIn: "in", ast.Is: "is not", ast.IsNot: "is"}.get(type(test.ops[0]))
+        if comp is not None:
+            for a, b in ((test.left, test.comparators[0]), (test.comparators[0], test.left)):
+                alt = f"{_norm(a)} {comp} {_norm(b)}"
+                if alt in facts:
+                    return not facts[alt]
+                if isinstance(test.ops[0], (ast.In, ast.NotIn, ast.Is, ast.IsNot)):
+                    break
+        if isinstance(test.ops[0], (ast.Eq, ast.NotEq)):
+            sw = f"{_norm(test.comparators[0])} {'==' if isinstance(test.ops[0], ast.Eq) else '!='} {_norm(test.left)}"
+            if sw in facts:
+                return facts[sw]
+    if isinstance(test, ast.Constant):
+        return bool(test.value)
+    return None
+
+
+def runs_under(func: ast.AST, node: ast.AST, facts, within: Optional[ast.AST] = None) -> Optional[bool]:
+    """Does `node` run when `facts` hold?  True if every guard evaluates to its required
+    polarity, False if one evaluates to the opposite, None if the facts do not decide."""
+    res: Optional[bool] = True
+    for t, pol in guards(func, node, within=within):
+        v = truth(t, facts)
+        if v is None:
+            res = None if res is not False else False
+            continue
+        if v != pol:
+            return False
+    return res
